@@ -11,7 +11,7 @@
 (* line.  TLC's workers thus validate lines in parallel inside one JVM.       *)
 (* Relations between the members of a group of runs (adjacent lines sharing   *)
 (* case.group.id) are evaluated on every member against the group's first line *)
-EXTENDS Methods, Json, TLC
+EXTENDS Biases, Json, TLC
 
 Trace == ndJsonDeserialize("obs.ndjson")
 
@@ -32,14 +32,28 @@ GridVerdicts(o) ==
        THEN {Fail(o.case.exactprop, "off-grid", "")}
   ELSE {}
 
+(* reference-model contracts of the method need data on the exact grid; cases whose biases produce *)
+(* seeded real numbers (fatigue, concealment, ...) switch them off with case.methodref = FALSE    *)
+MethodRef(o) == ~(Has(o.case, "methodref") /\ ~o.case.methodref)
+
 MethodVerdicts(o) ==
   IF o.status # 200 THEN {}
+  ELSE IF ~MethodRef(o) THEN C01(o)
   ELSE C01(o) \cup
        (IF IsUtility(Method(o)) /\ HasEval(o) THEN C03(o) \cup C04(o) ELSE {}) \cup
        (IF Method(o) = "majorityHeuristic" /\ HasEval(o) THEN C11(o) ELSE {}) \cup
        (IF Method(o) = "aspectEliminationHeuristic" /\ HasEval(o) THEN C12(o) ELSE {}) \cup
        (IF Method(o) = "satisfactionHeuristic" /\ HasEval(o) THEN C13(o) ELSE {}) \cup
        (IF Method(o) = "electreIII" /\ HasEval(o) THEN C05(o) \cup C06(o) ELSE {})
+
+(* contracts of the bias stage, evaluated on every recorded bias step (cases ask for them with case.bias) *)
+BiasVerdicts(o) ==
+  IF ~(Has(o.case, "bias") /\ o.case.bias) THEN {}
+  ELSE LET rb == ReqBiases(o)
+           evs == BiasEvents(o)
+       IN (IF o.status = 200 THEN C08Line(o) ELSE {})
+          \cup UNION {C07Event(o, k, rb[k]) : k \in {j \in DOMAIN evs : j <= Len(rb)}}
+          \cup (IF Has(o, "reqDigBefore") THEN C09Line(o) ELSE {})
 
 (* relation between the members of a group of runs (adjacent lines sharing case.group.id) *)
 GroupSummary(o) ==
@@ -61,7 +75,7 @@ GroupVerdicts(k) ==
 
 Verdicts(k) ==
   LET o == Trace[k] IN
-  StatusVerdicts(o) \cup GridVerdicts(o) \cup MethodVerdicts(o) \cup GroupVerdicts(k)
+  StatusVerdicts(o) \cup GridVerdicts(o) \cup MethodVerdicts(o) \cup BiasVerdicts(o) \cup GroupVerdicts(k)
 
 Init == l = 0 /\ done = FALSE
 
